@@ -336,6 +336,13 @@ def r7_dumper_is_read_only(ctx, rid):
         check_entry(ctx, rid, ctx.repo.get_func(rel, q), None)
 
 
+def r9_cached_defaults(ctx, rid):
+    """A model and its to_yaml round trip use different operator cache keys (dumped variants are renamed), so they agree only if
+    the cached operator defaults are the template's own values (same rule as C07-R5)."""
+    from .c07 import r5_cached_defaults_come_from_the_template
+    r5_cached_defaults_come_from_the_template(ctx, rid)
+
+
 def r8_boundary_vocabulary(ctx, rid):
     """Equation edits (replace/remove) act on whole identifiers only if parser.replace recognises every operator character of
     the grammar as a token boundary (same rule as C05-R4)."""
@@ -352,4 +359,5 @@ RULES = [
     ("C15-R6", r6_loader_derivation, 3),
     ("C15-R7", r7_dumper_is_read_only, 8),
     ("C15-R8", r8_boundary_vocabulary, 1),
+    ("C15-R9", r9_cached_defaults, 3),
 ]
